@@ -106,7 +106,10 @@ class Sandbox:
         self.reset()
 
     # -- lifecycle ---------------------------------------------------------
-    def reset(self, first_id=1000):
+    def reset(self, first_id=1000, projname="proj"):
+        """projname: name of the project directory (any legal directory name may hold a project)."""
+        shutil.rmtree(self.proj, ignore_errors=True)
+        self.proj = os.path.join(self.root, projname)
         for d in (self.proj, self.ctl):
             shutil.rmtree(d, ignore_errors=True)
         os.makedirs(self.proj)
